@@ -459,7 +459,7 @@ Theorem changed_input_fails_and_drains w r t ok :
   c_state w' = SS_FAILED /\ c_deferred w' = false /\ draining w' = true /\ c_run w' = None /\
   bk w' = bstep (bk w) (BStop (c_id w) t false).
 Proof.
-  intros Hrun Hch. unfold do_end. rewrite Hrun. cbv zeta.
+  intros Hrun Hch. unfold do_end, do_end_gen. rewrite Hrun. cbv zeta.
   rewrite (nonempty_true _ Hch). rewrite classify_unexpected. cbv iota beta.
   rewrite mark_completed_fail. cbn. rewrite orb_true_r. repeat split; reflexivity.
 Qed.
@@ -595,8 +595,10 @@ Lemma do_end_deferring w r t ok :
   bk w' = bstep (bk w) (BStop (c_id w) t false).
 Proof.
   intros Hrun Hd. destruct (changed_inputs w) as [|x l] eqn:Hch.
-  - unfold do_end. rewrite Hrun. cbv zeta. rewrite Hch. cbn [nonempty negb].
-    rewrite (classify_defer _ _ _ _ Hd). cbv iota beta. rewrite mark_completed_defer.
+  - assert (Hd' : r_unavail r || (r_unfresh r || (exec_flags_inputs_not_final && flagged w r)) = true).
+    { apply orb_true_iff in Hd as [H|H]; rewrite H; rewrite ?orb_true_r; reflexivity. }
+    unfold do_end, do_end_gen. rewrite Hrun. cbv zeta. rewrite Hch. cbn [nonempty negb].
+    rewrite (classify_defer _ _ _ _ Hd'). cbv iota beta. rewrite mark_completed_defer.
     destruct (N.leb_spec (c_dc w + 1) (cap w)) as [Hle|Hgt]; cbn.
     + split; [discriminate|]. split; [|reflexivity]. intros _. split; [intros _; split; reflexivity|lia].
     + split; [discriminate|]. split; [|reflexivity]. intros _. split; [lia|reflexivity].
@@ -759,7 +761,8 @@ Lemma do_end_succeeded w r t ok :
   c_run w = Some r -> c_state (fst (do_end w t ok)) = SS_SUCCEEDED ->
   changed_inputs w = [] /\ r_unavail r = false /\ r_unfresh r = false /\ r_success r = true /\ ok = true /\
   files (fst (do_end w t ok)) = files w /\ disk (fst (do_end w t ok)) = disk w /\
-  bk (fst (do_end w t ok)) = bstep (bk w) (BStop (c_id w) t true).
+  bk (fst (do_end w t ok)) = bstep (bk w) (BStop (c_id w) t true) /\
+  flagged w r = false.
 Proof.
   intros Hrun Hs.
   destruct (changed_inputs w) as [|x l] eqn:Hch.
@@ -769,7 +772,13 @@ Proof.
   destruct (r_unavail r || r_unfresh r) eqn:Hfl.
   { destruct (do_end_deferring w r t ok Hrun Hfl) as [Hns _]. cbv zeta in Hns. contradiction. }
   apply orb_false_iff in Hfl as [Hu Hf].
-  revert Hs. unfold do_end. rewrite Hrun. cbv zeta. rewrite Hch, Hu, Hf. cbn [nonempty negb].
+  destruct (flagged w r) eqn:Hfg.
+  { exfalso. revert Hs. unfold do_end, do_end_gen. rewrite Hrun. cbv zeta. rewrite Hch, Hu, Hf, Hfg.
+    unfold exec_flags_inputs_not_final. cbn [nonempty negb andb orb].
+    rewrite (classify_defer false true _ _ eq_refl). cbv iota beta. rewrite mark_completed_defer.
+    destruct (c_dc w + 1 <=? cap w); cbn; discriminate. }
+  revert Hs. unfold do_end, do_end_gen. rewrite Hrun. cbv zeta. rewrite Hch, Hu, Hf, Hfg.
+  unfold exec_flags_inputs_not_final. cbn [nonempty negb andb orb].
   rewrite classify_plain. cbv iota beta.
   destruct (r_success r), ok; cbn [andb]; try (rewrite mark_completed_fail; cbn; discriminate).
   rewrite mark_completed_ok. cbn. intros _. repeat split; reflexivity.
@@ -791,6 +800,64 @@ Qed.
 Lemma prefix_refl {A} (l : list A) : prefix_of l l.
 Proof. exists []. rewrite app_nil_r. reflexivity. Qed.
 
+(* the snapshot the running command started from *)
+Definition snapof (w : world) : option (list (N * N)) :=
+  match c_run w with Some r => Some (r_snap r) | None => None end.
+
+Lemma do_amend_snap w r ps : c_run w = Some r -> snapof (fst (do_amend w ps)) = Some (r_snap r).
+Proof.
+  intros Hrun. unfold do_amend. rewrite Hrun.
+  destruct (a_rej _); [cbn [fst]; unfold snapof; rewrite Hrun; reflexivity|].
+  destruct (fold_left confirm_one _ _) as [w1 u1]. rewrite amend_tail_spec. cbv iota beta. cbn [fst].
+  unfold snapof. cbn [set_run c_run].
+  destruct (nonempty u1 || nonempty _); reflexivity.
+Qed.
+
+Lemma window_step_snap w e sn :
+  in_window e = true -> snapof w = Some sn -> snapof (fst (step w e)) = Some sn.
+Proof.
+  intros Hw Hs. unfold snapof in Hs. destruct (c_run w) as [r|] eqn:Hrun; [|discriminate].
+  inversion Hs; subst sn. clear Hs.
+  destruct e as [f v|f row|st df dc|b|dr|t|ps|t ok]; try discriminate Hw; cbn [step fst].
+  1-5: (unfold snapof; cbn; rewrite Hrun; reflexivity).
+  - unfold do_try, dispatchable, is_running. rewrite Hrun. rewrite !andb_false_r. cbn [negb fst].
+    unfold snapof. rewrite Hrun. reflexivity.
+  - apply do_amend_snap. exact Hrun.
+Qed.
+
+Lemma window_run_snap evs : forall w sn,
+  forallb in_window evs = true -> snapof w = Some sn -> snapof (run evs w) = Some sn.
+Proof.
+  induction evs as [|e evs IH]; intros w sn Hw Hs; [exact Hs|].
+  cbn [forallb] in Hw. apply andb_true_iff in Hw as [He Hw].
+  unfold run. cbn [fold_left]. apply IH; [exact Hw|]. apply window_step_snap; assumption.
+Qed.
+
+Lemma sm_get_map_fn (g : N -> N) l f : In f l -> sm_get f (map (fun x => (x, g x)) l) = Some (g f).
+Proof.
+  induction l as [|a l IH]; intros Hin; [contradiction|]. cbn [map sm_get].
+  destruct (N.eqb_spec a f) as [->|Hne]; [reflexivity|].
+  destruct Hin as [->|Hin]; [contradiction|apply IH; exact Hin].
+Qed.
+
+Lemma flag_input_in_snap st same pis rc :
+  posthash_considers_gen st = true -> flag_input_gen st true same pis rc = false -> same = true.
+Proof.
+  unfold posthash_considers_gen, flag_input_gen. intros Hc. rewrite Hc. cbn [negb].
+  destruct same; [reflexivity|discriminate].
+Qed.
+
+Lemma flag_input_amended st pis rc :
+  st = FS_BUILT -> flag_input_gen st false true pis rc = false -> pis && rc = false.
+Proof. intros ->. unfold flag_input_gen. cbn. destruct (pis && rc); [discriminate|reflexivity]. Qed.
+
+Lemma considered_attached w f : In f (considered w) ->
+  In f (attached_inputs w) /\ posthash_considers_gen (f_state (files w f)) = true.
+Proof.
+  unfold considered, attached_inputs. intros H. apply filter_In in H as [Hin Hp].
+  apply andb_true_iff in Hp as [Hd Hc]. split; [apply filter_In; split; assumption|exact Hc].
+Qed.
+
 (* succeeded_inputs_final_partial.  Let the command of c start (dispatch + pre-run check) in world
    w0 and end SUCCEEDED after the window `mid` (arbitrary events of any actor).  Then
    (A) every input that is attached and BUILT or CONFIRMED when the command ends (declared or
@@ -800,9 +867,12 @@ Proof. exists []. rewrite app_nil_r. reflexivity. Qed.
        when the command started;
    (C) no accepted amend request in the window reported an unavailable or unfresh input
        (all answered carry_on = True);
-   (D) for a declared input whose recorded hash is the same at both ends of the window (db_stable)
-       and under no_aba, the content on disk equals the recorded hash at EVERY moment of the window.
-   Without db_stable (D) is false, see inputs_final_full_refuted_by_producer_rerun. *)
+   (D) for every declared input that counts at the end, the hash recorded at the end is the hash
+       the command started from (enforced by _flag_inputs_not_final since a02f82b; formerly the
+       hypothesis db_stable), so the file has the same content at both ends of the window, and
+       under no_aba the content on disk equals the recorded hash at EVERY moment of the window;
+   (E) every amended input (not in the start snapshot) that counts at the end and is BUILT by a
+       step p has ran_concurrently(p, c) = False when the command returns. *)
 Theorem succeeded_inputs_final_partial w0 t mid t' ok :
   snd (do_try w0 t) = RTry true ->
   forallb in_window mid = true ->
@@ -819,24 +889,35 @@ Theorem succeeded_inputs_final_partial w0 t mid t' ok :
      mid = pre ++ EAmend ps :: post ->
      snd (step (run pre w1) (EAmend ps)) = RAmend false unav unfr carry ->
      unav = [] /\ unfr = [] /\ carry = true) /\
-  (forall f, In f (c_init w0) -> In f (considered w2) -> db_stable w1 mid f -> no_aba w1 mid f ->
-     forall m1, prefix_of m1 mid -> disk (run m1 w1) f = f_hash (files w3 f)).
+  (forall f, In f (c_init w0) -> In f (considered w2) ->
+     f_hash (files w3 f) = f_hash (files w0 f) /\ disk w2 f = disk w1 f /\
+     (no_aba w1 mid f -> forall m1, prefix_of m1 mid -> disk (run m1 w1) f = f_hash (files w3 f))) /\
+  (forall f p, In f (considered w2) -> sm_get f (snapshot w0) = None ->
+     f_state (files w2 f) = FS_BUILT -> f_producer (files w2 f) = Some p ->
+     ran_conc (bk w2) p (c_id w2) = false).
 Proof.
   intros Htry Hwin. cbv zeta. intros Hs.
   destruct (do_try w0 t) as [w1 res] eqn:Hdt. cbn [fst snd] in *. subst res.
   destruct (not_started_before_inputs_available w0 t w1 Hdt)
-    as [_ [_ [_ [Hinit [_ [_ [_ [r [Hrun [Hru [Hrf _]]]]]]]]]]].
+    as [_ [_ [_ [Hinit [_ [_ [_ [r [Hrun [Hru [Hrf [Hsnap _]]]]]]]]]]]].
   pose proof (do_try_started w0 t) as Hst. rewrite Hdt in Hst. cbn [fst snd] in Hst.
   destruct (Hst eq_refl) as [Hdisk1 [Hfiles1 Hinit1]].
   assert (Hf1 : flags w1 = Some (r_unavail r, r_unfresh r)) by (unfold flags; rewrite Hrun; reflexivity).
   destruct (window_run_flags mid w1 _ _ Hwin Hf1) as [ru2 [rf2 [Hf2 _]]].
   unfold flags in Hf2. destruct (c_run (run mid w1)) as [r2|] eqn:Hrun2; [|discriminate].
+  assert (Hsn2 : r_snap r2 = snapshot w0).
+  { assert (H1 : snapof w1 = Some (snapshot w0)) by (unfold snapof; rewrite Hrun, Hsnap; reflexivity).
+    pose proof (window_run_snap mid w1 _ Hwin H1) as H2. unfold snapof in H2. rewrite Hrun2 in H2.
+    inversion H2. reflexivity. }
   cbn [step] in Hs.
-  destruct (do_end_succeeded _ r2 t' ok Hrun2 Hs) as [Hch [_ [_ [_ [_ [Hfiles3 [Hdisk3 _]]]]]]].
+  destruct (do_end_succeeded _ r2 t' ok Hrun2 Hs) as [Hch [_ [_ [_ [_ [Hfiles3 [Hdisk3 [_ Hflag]]]]]]]].
   assert (HA : forall f, In f (considered (run mid w1)) ->
                disk (run mid w1) f = f_hash (files (run mid w1) f)).
   { intros f Hin. pose proof (filter_nil_forall _ _ Hch f Hin) as Hx. cbn in Hx.
     apply negb_false_iff in Hx. apply N.eqb_eq in Hx. exact Hx. }
+  assert (HF : forall f, In f (considered (run mid w1)) -> flagged_input (run mid w1) r2 f = false).
+  { intros f Hin. destruct (considered_attached _ _ Hin) as [Hat _].
+    unfold flagged in Hflag. exact (existsb_false_forall _ _ Hflag f Hat). }
   split; [intros f Hin; split; [apply HA; exact Hin|cbn [step]; rewrite Hfiles3; reflexivity]|].
   split.
   { intros f Hin. destruct (Hinit f Hin) as [Hd [Hstate Hdk]]. split; [exact Hd|]. split; [exact Hstate|].
@@ -862,12 +943,23 @@ Proof.
     unfold flags in Hfl1. destruct (c_run (run pre w1)) as [rp|] eqn:Hrp; [|discriminate].
     cbn [step] in Hres. destruct (do_amend (run pre w1) ps) as [wa res] eqn:Ha. cbn [snd] in Hres. subst res.
     destruct (do_amend_flags _ _ _ _ _ _ _ Hrp Ha) as [_ [_ [_ [_ Hc]]]]. exact Hc. }
-  intros f Hin Hcons Hdb Hna m1 Hpre.
-  cbn [step]. rewrite Hfiles3.
-  destruct (Hinit f Hin) as [_ [_ Hdk]].
-  assert (Hends : disk (run mid w1) f = disk w1 f).
-  { rewrite (HA f Hcons). unfold db_stable in Hdb. rewrite Hdb. rewrite Hfiles1, Hdisk1. symmetry. exact Hdk. }
-  rewrite (Hna Hends m1 Hpre). rewrite <- Hends. apply HA. exact Hcons.
+  split.
+  { intros f Hin Hcons.
+    destruct (Hinit f Hin) as [Hdet [Hstate Hdk]].
+    assert (Hget : sm_get f (r_snap r2) = Some (f_hash (files w0 f))).
+    { rewrite Hsn2. unfold snapshot. apply sm_get_map_fn. apply in_or_app. left. apply filter_In.
+      split; [exact Hin|]. unfold derive_input.
+      rewrite (proj2 (derive_hash_iff _ _ false) (conj Hdet Hstate)). reflexivity. }
+    destruct (considered_attached _ _ Hcons) as [_ Hpc].
+    pose proof (HF f Hcons) as Hfi. unfold flagged_input in Hfi. rewrite Hget in Hfi.
+    apply (flag_input_in_snap _ _ _ _ Hpc) in Hfi. apply N.eqb_eq in Hfi.
+    assert (Hends : disk (run mid w1) f = disk w1 f).
+    { rewrite (HA f Hcons), <- Hfi, Hdisk1. symmetry. exact Hdk. }
+    cbn [step]. rewrite Hfiles3. split; [symmetry; exact Hfi|]. split; [exact Hends|].
+    intros Hna m1 Hpre. rewrite (Hna Hends m1 Hpre). rewrite <- Hends. apply HA. exact Hcons. }
+  intros f p Hcons Hnone Hbuilt Hprod.
+  pose proof (HF f Hcons) as Hfi. unfold flagged_input in Hfi. rewrite Hsn2, Hnone, Hprod in Hfi.
+  apply (flag_input_amended _ _ _ Hbuilt) in Hfi. cbn [andb] in Hfi. exact Hfi.
 Qed.
 
 (* The full statement of the last clause: a step that ends SUCCEEDED had, at every moment of its
@@ -903,34 +995,36 @@ Proof.
   split; [vm_compute; reflexivity|]. vm_compute. discriminate.
 Qed.
 
-(* Refutation 2: the producer 8 of the declared input 1 is executed again while the command of c
-   runs (its outputs go OUTDATED, it rewrites the file: 4 -> 7, completes, the row is BUILT with the
-   new hash).  Nothing is restored: the file plainly differs between the start and the end of the
-   window, yet c ends SUCCEEDED, because the post-run check compares the disk with the hash that
-   is in the database at the end.  mark_step_pending is a no-op on a RUNNING step, so nothing
-   reruns c later.  This is a defect of the code (finding C03-rerun), replayed on the
-   implementation by harness/p_c03.py (WITNESS_RERUN) and harness/c03_sys.py (real serve()). *)
-Lemma inputs_final_full_refuted_by_producer_rerun :
-  exists w0 t mid t' ok f,
-    snd (do_try w0 t) = RTry true /\ forallb in_window mid = true /\
-    c_state (fst (step (run mid (fst (do_try w0 t))) (EEnd t' ok))) = SS_SUCCEEDED /\
-    In f (c_init w0) /\ In f (considered (run mid (fst (do_try w0 t)))) /\
-    disk (run mid (fst (do_try w0 t))) f <> disk (fst (do_try w0 t)) f /\
-    disk (fst (do_try w0 t)) f <> f_hash (files (fst (step (run mid (fst (do_try w0 t))) (EEnd t' ok))) f).
-Proof.
-  exists (wit_world FS_BUILT 4 (Some 8)), 1,
-    [EBk (BStart 8 2); ERow 1 (mkF true FS_OUTDATED 4 false true (Some 8) false); EWrite 1 7;
-     ERow 1 (mkF true FS_BUILT 7 false true (Some 8) false); EBk (BStop 8 3 true)], 4, true, 1.
-  split; [vm_compute; reflexivity|]. split; [reflexivity|]. split; [vm_compute; reflexivity|].
-  split; [left; reflexivity|]. split; [vm_compute; left; reflexivity|].
-  split; vm_compute; discriminate.
-Qed.
+(* Regression witness: the producer 8 of the declared input 1 is executed again while the command
+   of c runs (its outputs go OUTDATED, it rewrites the file: 4 -> 7, completes, the row is BUILT with
+   the new hash).  Nothing is restored: the file plainly differs between the two ends of the window.
+   The code BEFORE fix a02f82b (do_end_gen false: no _flag_inputs_not_final) ends SUCCEEDED, because
+   the post-run check compares the disk with the hash that is in the database at the end (finding
+   D19 / C03-rerun).  The current code (do_end) reports the input unfresh and ends PENDING, to run
+   again.  Replayed on the implementation by harness/p_c03.py (WITNESS_RERUN), harness/c03_sys.py
+   (real serve()) and harness/c03_e3.py. *)
+Definition rerun_mid : list ev :=
+  [EBk (BStart 8 2); ERow 1 (mkF true FS_OUTDATED 4 false true (Some 8) false); EWrite 1 7;
+   ERow 1 (mkF true FS_BUILT 7 false true (Some 8) false); EBk (BStop 8 3 true)].
+
+Lemma prefix_variant_refuted_by_producer_rerun :
+  let w0 := wit_world FS_BUILT 4 (Some 8) in
+  let w1 := fst (do_try w0 1) in
+  let w2 := run rerun_mid w1 in
+  snd (do_try w0 1) = RTry true /\ forallb in_window rerun_mid = true /\
+  In 1 (c_init w0) /\ In 1 (considered w2) /\ disk w2 1 <> disk w1 1 /\
+  (* before the fix: SUCCEEDED on a content the command did not start from *)
+  c_state (fst (do_end_gen false w2 4 true)) = SS_SUCCEEDED /\
+  disk w1 1 <> f_hash (files (fst (do_end_gen false w2 4 true)) 1) /\
+  (* now: not SUCCEEDED, PENDING and dispatchable again *)
+  c_state (fst (do_end w2 4 true)) = SS_PENDING /\ c_deferred (fst (do_end w2 4 true)) = false.
+Proof. vm_compute. repeat split; try reflexivity; try discriminate; left; reflexivity. Qed.
 
 Theorem inputs_final_full_refuted : ~ inputs_final_full.
 Proof.
   intros H.
-  destruct inputs_final_full_refuted_by_producer_rerun as [w0 [t [mid [t' [ok [f [H1 [H2 [H3 [_ [H5 [_ H7]]]]]]]]]]]].
-  apply H7. apply (H w0 t mid t' ok H1 H2 H3 f H5 []). exists mid. reflexivity.
+  destruct inputs_final_full_refuted_by_aba as [w0 [t [mid [t' [ok [f [m1 [H1 [H2 [H3 [H4 [H5 [_ H7]]]]]]]]]]]]].
+  apply H7. exact (H w0 t mid t' ok H1 H2 H3 f H4 m1 H5).
 Qed.
 
 (* What a "not unfresh" verdict means: with clock readings that never decrease, if
@@ -1084,7 +1178,7 @@ Proof.
   - (* EAmend *)
     destruct (do_amend_book w ps) as [H1 H2]. eapply book_hist_same; eassumption.
   - (* EEnd *)
-    unfold do_end. destruct (c_run w) as [r|]; cbn [fst]; [|eapply book_hist_weaken; eassumption].
+    unfold do_end, do_end_gen. destruct (c_run w) as [r|]; cbn [fst]; [|eapply book_hist_weaken; eassumption].
     cbv zeta.
     destruct (classify_gen _ _ _ _ _) as [[[[[hash_some wants_defer] success] ru] rf] rehash].
     destruct (mark_completed_gen _ _ _ _ _ _) as [[[[[[[st df] interrupted] dc] x1] x2] x3] x4].
